@@ -71,3 +71,47 @@ pub fn vecdeque_drain_to(v: &mut std::collections::VecDeque<u8>, r: std::ops::Ra
 { v.drain(r); }
 
 } // verus!
+
+/// R9: stand-in for the external crate `crc32fast` (only what the repo uses).  Assumed contract: a Hasher
+/// accumulates the bytes it is fed, and `finalize` is an (uninterpreted) function of exactly those bytes.
+pub mod crc32fast {
+    use vstd::prelude::*;
+    verus! {
+    pub uninterp spec fn crc_of(bytes: Seq<u8>) -> u32;
+
+    #[verifier::external_body]
+    pub struct Hasher { _p: () }
+
+    impl Hasher {
+        pub uninterp spec fn input(&self) -> Seq<u8>;
+
+        #[verifier::external_body]
+        pub fn new() -> (r: Hasher)
+            ensures r.input() == Seq::<u8>::empty(),
+        { unimplemented!() }
+
+        #[verifier::external_body]
+        pub fn update(&mut self, buf: &[u8])
+            ensures final(self).input() == old(self).input() + buf@,
+        { unimplemented!() }
+
+        #[verifier::external_body]
+        pub fn finalize(self) -> (r: u32)
+            ensures r == crc_of(self.input()),
+        { unimplemented!() }
+    }
+
+    impl Default for Hasher {
+        #[verifier::external_body]
+        fn default() -> (r: Hasher)
+            ensures r.input() == Seq::<u8>::empty(),
+        { unimplemented!() }
+    }
+
+    #[verifier::external_body]
+    pub fn hash(buf: &[u8]) -> (r: u32)
+        ensures r == crc_of(buf@),
+    { unimplemented!() }
+    } // verus!
+}
+
